@@ -36,7 +36,12 @@ func (c split) Send(msg []byte) error {
 	if bytes.IndexByte(msg, c.split) >= 0 {
 		return errors.New("message contains split byte")
 	}
-	out := append(msg, c.split)
+	// Build the frame in a buffer of our own: appending to msg could write the
+	// split byte into the caller's array just past the record, where the
+	// caller may keep other data (e.g. its next record).
+	out := make([]byte, len(msg)+1)
+	copy(out, msg)
+	out[len(msg)] = c.split
 	_, err := c.wc.Write(out)
 	return err
 }
